@@ -30,7 +30,7 @@ EXHAUSTIVE_NOTE = {"quick": "PCGrad: all 8 order combinations for every m = 3 ma
 ASSUMPTIONS = ["PCGrad decisions with an inner product within 1e-9 s^2 of zero are not judged", "CAGrad between stationarity (rho <= 1e-9 s) and "
                "rho >= 2e-3 s (1e-2 s float32) is not judged: the rescaling c|g0|/|g_w| amplifies solver rounding there"]
 N = {"quick": {"mgda": 2500, "random": 600, "cagrad": 500, "graddrop": 2500, "pcgrad_sched": 220, "pcgrad_free": 800},
-     "thorough": {"mgda": 160000, "random": 40000, "cagrad": 40000, "graddrop": 160000, "pcgrad_sched": 1800, "pcgrad_free": 60000}}
+     "thorough": {"mgda": 320000, "random": 80000, "cagrad": 80000, "graddrop": 320000, "pcgrad_sched": 3600, "pcgrad_free": 120000}}
 
 
 def exhaustive(tier):
